@@ -79,6 +79,51 @@ def _attribution(db, chk, m):
     chk.floor(rule, 20)
 
 
+def _split_attribution(m, f):
+    """when _add_edge_helper itself attributes the edge it creates - a parameter P forwarded to self._attribute_edge(<new edge>, P) - a call
+    `[e =] self._add_edge_helper(.., P=X)` is the pair `e = self._add_edge_helper(..); self._attribute_edge(e, X)` the rules below read.  Returns f or a rewritten copy."""
+    import copy
+    helper = m.functions.get("CPGraph._add_edge_helper")
+    if helper is None:
+        return f
+    params = H.param_names(helper)
+    fwd = [H.name_id(c.args[1]) for c in ast.walk(helper) if isinstance(c, ast.Call) and isinstance(c.func, ast.Attribute) and c.func.attr == "_attribute_edge" and len(c.args) == 2 and H.name_id(c.args[1]) in params]
+    if len(set(fwd)) != 1:
+        return f
+    pname = fwd[0]
+    g = copy.deepcopy(f)
+    n_ = [0]
+
+    def rewrite(block):
+        out = []
+        for s in block:
+            for fld in ("body", "orelse", "finalbody"):
+                b = getattr(s, fld, None)
+                if isinstance(b, list) and b and isinstance(b[0], ast.stmt) and not isinstance(s, (ast.FunctionDef, ast.ClassDef)):
+                    setattr(s, fld, rewrite(b))
+            c = s.value if isinstance(s, (ast.Assign, ast.Expr)) else None
+            if isinstance(c, ast.Call) and isinstance(c.func, ast.Attribute) and c.func.attr == "_add_edge_helper" and any(k.arg == pname for k in c.keywords):
+                x = next(k.value for k in c.keywords if k.arg == pname)
+                c.keywords = [k for k in c.keywords if k.arg != pname]
+                if isinstance(s, ast.Assign) and isinstance(s.targets[0], ast.Name):
+                    en = s.targets[0].id
+                    first = s
+                else:
+                    n_[0] += 1
+                    en = f"__edge{n_[0]}"
+                    first = ast.copy_location(ast.Assign(targets=[ast.Name(id=en, ctx=ast.Store())], value=c), s)
+                att = ast.copy_location(ast.Expr(value=ast.Call(func=ast.Attribute(value=ast.Name(id="self", ctx=ast.Load()), attr="_attribute_edge", ctx=ast.Load()),
+                                                                 args=[ast.Name(id=en, ctx=ast.Load()), x], keywords=[])), s)
+                ast.fix_missing_locations(first)
+                ast.fix_missing_locations(att)
+                out += [first, att]
+                continue
+            out.append(s)
+        return out
+    g.body = rewrite(g.body)
+    return g
+
+
 def _parents(db, chk, m):
     """the parent passed for case (E,S) is the parent recorded together with last_node.  The traversal variables are found by ROLE (the source of the
     attributed edge / the parent argument of the attribution); they may be nonlocal names or fields of one closure object."""
@@ -105,7 +150,7 @@ def _parents(db, chk, m):
     for fname in ("enter_func", "exit_func"):
         f0 = m.func(f"{outer_q}.{fname}")
         where = m.loc(f0)
-        f = H.inline_helpers(m, f0, exclude=("_add_edge_helper", "_attribute_edge"))
+        f = _split_attribution(m, H.inline_helpers(m, f0, exclude=("_add_edge_helper", "_attribute_edge")))
         params = H.param_names(f0)
         nonlocals = {n_ for x in ast.walk(f) if isinstance(x, ast.Nonlocal) for n_ in x.names}
         own = set(params) | {H.name_id(t) for t, v, s_ in H.assignments(f) if isinstance(t, ast.Name)} - nonlocals
@@ -156,7 +201,7 @@ def _parents(db, chk, m):
         chk.ob(rule, f"{fname}: whenever last_node moves to a node of the current event, last_ev_parent is set to that event's parent", (n >= 1 and not bad) if n else None, where, found={"moves": n, "unpaired": bad},
                accepted="last_node = <node>; last_ev_parent = csnode.parent", why="a stale parent attributes the gap between two siblings to a descendant of the operator just left")
     kf0 = m.func("CPGraph._construct_graph_from_kernels")
-    kf = H.inline_helpers(m, kf0, exclude=("_add_edge_helper", "_attribute_edge"))
+    kf = _split_attribution(m, H.inline_helpers(m, kf0, exclude=("_add_edge_helper", "_attribute_edge")))
     helper = m.func("CPGraph._add_edge_helper")
     stmts = [s for s in ast.walk(kf) if isinstance(s, ast.stmt)]
     spans, bad = 0, []
